@@ -83,6 +83,16 @@ struct Scheduler
     std::vector<std::vector<int>> rw_reader_ids;
     // simulated clock
     int64_t now_ns = 0;
+    uint64_t elapsed_ns = 0;  // simulated time covered by this run (jumps excluded)
+    uint64_t clock_state = 1; // per-run stream for the clock's advance
+    int64_t tick()
+    {
+        clock_state = splitmix64(clock_state);
+        int64_t d = 1000 + static_cast<int64_t>(clock_state % 1000000); // 1 us .. 1 ms per step
+        now_ns += d;
+        elapsed_ns += static_cast<uint64_t>(d);
+        return now_ns;
+    }
     bool unlock_not_owner = false;
     bool alloc_yield = false;      // run knob: allocations are yield points
     unsigned timeout_num = 0;      // run knob: a blocked timed lock gives up with probability n/8 per wait
@@ -263,7 +273,7 @@ struct Scheduler
             return;
         NoFault nf; // the scheduler's own allocations are neither fault sites nor yield points
         trace.add((static_cast<uint64_t>(kind) << 8) | static_cast<uint64_t>(me));
-        now_ns += 1 + static_cast<int64_t>(steps % 7);
+        tick();
         hand_off(me, false);
     }
 
@@ -496,6 +506,7 @@ struct Scheduler
         rw_readers.clear();
         rw_reader_ids.clear();
         now_ns = 1000000000;
+        elapsed_ns = 0;
         unlock_not_owner = false;
         for (int i = 0; i < MAXT; i++)
         {
@@ -557,8 +568,7 @@ struct SimClock
         Scheduler& s = Scheduler::get();
         s.yield(YK_CLOCK);
         ++calls();
-        s.now_ns += 17;
-        return time_point(duration(s.now_ns));
+        return time_point(duration(s.tick()));
     }
 };
 
@@ -578,6 +588,8 @@ public:
     uint64_t chunk_state = 1;
     uint64_t chunks = 0;
     uint64_t flushes = 0;
+    size_t fail_at = static_cast<size_t>(-1); // the device refuses everything beyond this many bytes
+    bool failed = false;
     const char* name = "?";
 
     void configure(size_t bufsize, unsigned chunkmax, uint64_t seed)
@@ -596,6 +608,8 @@ public:
         chunk_max = chunkmax ? chunkmax : 1;
         chunk_state = splitmix64(seed);
         chunks = flushes = 0;
+        fail_at = static_cast<size_t>(-1);
+        failed = false;
     }
     std::string contents_with_remainder() const
     {
@@ -640,6 +654,11 @@ protected:
         while (n)
         {
             size_t c = std::min(n, next_chunk());
+            if (failed || device.size() + c > fail_at)
+            {
+                failed = true; // an I/O error: the ostream above turns this into badbit
+                return;
+            }
             {
                 NoFault nf;
                 device.append(p, c);
@@ -668,7 +687,7 @@ protected:
         if (!pbase())
         {
             device_write(s, n);
-            return count;
+            return failed ? 0 : count;
         }
         while (n)
         {
@@ -686,6 +705,8 @@ protected:
             pbump(static_cast<int>(dst + c - pbase()));
             s += c;
             n -= c;
+            if (failed)
+                return 0;
         }
         return count;
     }
@@ -714,7 +735,7 @@ protected:
             flush_area();
         else
             yield(YK_STREAM);
-        return 0;
+        return failed ? -1 : 0;
     }
 };
 
